@@ -33,7 +33,9 @@ TTABLE = [("cat", False, False), ("head -c 3", False, False), ("tr a-m n-z", Fal
           ("base64 -w0", False, False), ("false", False, False), ("vk_failz", False, False),
           ("sed -i y/abc/xyz/ $IN", False, True), ("sed -i y/abc/xyz/ $IN", True, True),
           ("cat $IN", False, True), ("cat $IN", False, False), ("<none>", False, True),
-          ("sed y/abc/xyz/ $IN --in-place", False, True), ("sed y/abc/xyz/ $IN", True, True)]
+          ("sed y/abc/xyz/ $IN --in-place", False, True), ("sed y/abc/xyz/ $IN", True, True),
+          ("v1/vk_norm", False, False), ("v2/vk_norm", False, False), ("head  -c 3", False, False), ("cat ", False, False)]
+T_SAMENAME = [13, 14, 15, 16, 0, 1]    # same basename in two directories; whitespace variants of 1 and 0
 T_CLEAN = [0, 1, 2, 3, 4, 5, 6, 7, 8, 9]
 T_FLAGS = [6, 7, 8, 9]
 NALGO = 7
@@ -135,13 +137,24 @@ HELPERS = {
     "vk_failz": "#!/bin/sh\nf=$(mktemp)\ncat > \"$f\"\ncat \"$f\"\nc=$(head -c1 \"$f\")\nrm -f \"$f\"\n[ \"$c\" != \"z\" ]\n",
     "<none>": "#!/bin/sh\nexec head -c 2\n",
     "vk_head2": "#!/bin/sh\nexec head -c 2\n",
+    # Transform::new probes the program by its bare file name; the run uses the path as given
+    "vk_norm": "#!/bin/sh\nexec head -c 3\n",
 }
+# two different programs with the same file name (used as v1/vk_norm and v2/vk_norm, relative to the working directory)
+SAMENAME = {"v1": "#!/bin/sh\nexec head -c 3\n", "v2": "#!/bin/sh\nexec cat\n"}
 
 
 def write_helpers(bindir):
     os.makedirs(bindir, exist_ok=True)
     for name, body in HELPERS.items():
         p = os.path.join(bindir, name)
+        with open(p, "w") as f:
+            f.write(body)
+        os.chmod(p, 0o755)
+    root = os.path.dirname(os.path.abspath(bindir))
+    for d, body in SAMENAME.items():
+        os.makedirs(os.path.join(root, d), exist_ok=True)
+        p = os.path.join(root, d, "vk_norm")
         with open(p, "w") as f:
             f.write(body)
         os.chmod(p, 0o755)
@@ -171,6 +184,12 @@ class ApiGen:
             self.trs = ["-", "10"]
         elif profile == "alias":
             self.trs = ["11", "12"]
+        elif profile == "samename":
+            self.trs = [str(x) for x in rng.shuffle(T_SAMENAME)[:3]]
+            if "13" not in self.trs and "14" not in self.trs:
+                self.trs[0] = "13"
+            if ("13" in self.trs) != ("14" in self.trs):
+                self.trs.append("14" if "13" in self.trs else "13")
         else:
             k = 1 + rng.below(3)
             self.trs = ["-"] + [str(rng.choice(T_CLEAN)) for _ in range(k)]
@@ -545,7 +564,7 @@ def api_level(ctx, model):
     for i in range(n):
         k = rng.below(100)
         prof = ("clean" if k < 50 else "same_ms" if k < 60 else "preepoch" if k < 70 else "flags" if k < 80
-                else "returning" if k < 92 else "alias" if k < 96 else "none")
+                else "returning" if k < 90 else "samename" if k < 95 else "alias" if k < 98 else "none")
         g = ApiGen(rng.fork(), prof)
         ops = g.generate()
         sid = "s%d" % i
@@ -724,6 +743,11 @@ CLI_TRANSFORMS = {
     # KC3b: the same transform id "sed y/abc/xyz/ $IN --in-place" for two different transforms
     "sed_flagtext": ("sed y/abc/xyz/ $IN --in-place", False, False),
     "sed_print_inplace": ("sed y/abc/xyz/ $IN", True, False),
+    # two different programs with the same file name and the same (empty) argument text, and whitespace variants
+    "norm_v1": ("v1/vk_norm", False, False),
+    "norm_v2": ("v2/vk_norm", False, False),
+    "cat_blank": ("cat ", False, False),
+    "head_2blanks": ("head  -c 4096", False, False),
 }
 
 
@@ -872,6 +896,8 @@ class CliGen:
             cfg["transform"] = r.choice(["sed_out", "sed_inplace", "cat_in", "cat_in_nocopy"])
         elif self.profile == "alias":
             cfg["transform"] = r.choice(["sed_flagtext", "sed_print_inplace"])
+        elif self.profile == "samename":
+            cfg["transform"] = r.choice(["norm_v1", "norm_v2", "norm_v1", "norm_v2", "cat", "cat_blank", "head", "head_2blanks"])
         elif self.profile == "none":
             cfg["transform"] = r.choice(["-", "none"])
             cfg["skip_content"] = False
@@ -1012,6 +1038,8 @@ def cli_exec(fclones, hdir, bindir, steps, base, order_rng=None, stats=None):
     tree = os.path.join(hdir, "tree")
     for d in ("tree/a/sub", "tree/b", "xdg", "tmp"):
         os.makedirs(os.path.join(hdir, d))
+    for d in SAMENAME:              # v1/vk_norm, v2/vk_norm relative to the working directory of fclones
+        os.symlink(os.path.join(os.path.dirname(os.path.abspath(bindir)), d), os.path.join(hdir, d))
     env = dict(os.environ)
     env.update({"XDG_CACHE_HOME": os.path.join(hdir, "xdg"), "TMPDIR": os.path.join(hdir, "tmp"),
                 "FCLONES_VERIF_DISK_KIND": "ssd", "PATH": bindir + ":" + env.get("PATH", ""), "LC_ALL": "C",
@@ -1151,7 +1179,7 @@ def cli_level(ctx, only=None):
         for i in range(n):
             k = rng.below(100)
             prof = ("clean" if k < 62 else "preepoch" if k < 70 else "flags" if k < 78 else "returning_refreshed" if k < 88
-                    else "returning" if k < 92 else "alias" if k < 96 else "none")
+                    else "returning" if k < 90 else "samename" if k < 95 else "alias" if k < 98 else "none")
             nsteps = 1 + rng.below(6)
             g = CliGen(rng.fork(), prof, nsteps)
             steps = g.generate()
